@@ -109,7 +109,8 @@ fn main() {
         "C15" => {
             let mut rep = Report::new("C15", tier, "model_checking", "sim");
             rep.rule = "stateless enumeration: every history of depth 5 (quick) / 6 (thorough) over {udp bind :0 / fixed, tcp listen :0 / fixed, tcp connect, drop k-th object, crash+bounce} on a host with a four-port ephemeral range, each result compared with a set-of-ports reference (incl. the documented exhaustion panic); DNS: every sequence of lookups / host registrations / literal and regex lookups over five names, plus 600 names, IPv4 and IPv6".into();
-            run_dfs(&mut rep, "ports", 0, wall, move |ch| c15::ports_scenario(ch, thorough));
+            run_dfs(&mut rep, "ports", 0, wall, move |ch| c15::ports_scenario(ch, thorough, false));
+            run_dfs(&mut rep, "ports-around-reset-streams", 0, wall, move |ch| c15::ports_scenario(ch, thorough, true));
             run_dfs(&mut rep, "dns", 0, wall, move |ch| c15::dns_scenario(ch, thorough));
             rep.finish();
         }
@@ -318,7 +319,7 @@ fn replay(path: &str) {
         }
         "C15" => {
             if v["scenario"].as_str().map(|s| s.starts_with("c15-ports")).unwrap_or(false) {
-                c15::ports_scenario(&mut ch, thorough)
+                c15::ports_scenario(&mut ch, thorough, v["scenario"].as_str().map(|s| s.contains("reset-mode")).unwrap_or(false))
             } else {
                 c15::dns_scenario(&mut ch, thorough)
             }
